@@ -235,6 +235,102 @@ def r4_subclasses(ctx, sym):
                       "a `with %s(...)` block records the group zero or two times" % sub.name)
 
 
+CONSTRUCTOR_DOMAIN = {
+    # attribute: (class default in the model, explicit values a caller may pass - falsy ones included)
+    'valence': (-1, [0, 1, -1]),
+    'score': ('+5%', [0, 0.0, '+0', 5, '10%']),
+    'correct': (True, [False, True]),
+    'muted': (True, [False, True]),
+    'unscored': (True, [False, True]),
+    'kind': ('Mistake', ['Compliment', 'Instructional']),
+    'priority': ('low', ['highest', 'high', 'syntax']),
+    'category': ('instructor', ['runtime', 'Syntax']),
+    'label': (None, ['my_label', 'MixedCase']),
+    'message': ('class message', ['', 'text']),
+    'title': ('class title', ['', 'Title']),
+    'justification': ('class justification', ['', 'because']),
+}
+
+
+def constructor_rule(ctx, sym, rule, attrs):
+    """Feedback.__init__ executed abstractly on an instance whose class supplies a default for the attribute: an
+    explicit keyword argument - a falsy one (valence=0, score=0, correct=False, muted=False, '') included - becomes
+    the attribute's value; None leaves the class default."""
+    from .. import symexec
+    mod = ctx.repo.module(FEEDBACK)
+    init = mod.func('Feedback.__init__')
+    ctx.analysed_function(mod, init)
+    for attr in attrs:
+        default, values = CONSTRUCTOR_DOMAIN[attr]
+        for value in values + [None]:
+            me = symexec.self_obj(mod, 'Feedback')
+            if default is not None:
+                me.attrs[attr] = default
+            report = Obj('report')
+            symexec.method(report, 'get_current_group', lambda: None)
+            fd = symexec.new_fd(sym, mod, calls={
+                'isinstance': lambda o, t: isinstance(o, t) if isinstance(t, (type, tuple)) else False,
+                'Location': lambda *a, **k: Obj('Location')}, extra={'MAIN_REPORT': report})
+            kwargs = {'report': report, 'delay_condition': True}
+            if value is not None:
+                kwargs[attr] = value
+            _, raised = symexec.run(fd, init, [], kwargs, bound_self=me, what='Feedback.__init__')
+            got = me.attrs.get(attr)
+            if value is None:
+                want = default
+                ok = raised is None and (got == want if default is not None else True)
+            else:
+                want = value
+                ok = raised is None and got == want and type(got) is type(want)
+            ctx.check(ok, rule, 'Feedback.__init__[%s=%r]' % (attr, value), mod, init,
+                      "a feedback class whose default %s is %r, constructed with %s: the instance has %s = %r%s; expected "
+                      "%r" % (attr, default, '%s=%r' % (attr, value) if value is not None else 'no ' + attr, attr, got,
+                              '' if raised is None else ' (raises %s)' % raised.kind, want),
+                      "gently('...', valence=0, score='+5%'): the explicit neutral valence is dropped because 0 is "
+                      "falsy, so the feedback keeps its class's negative valence and scores the other way round")
+
+
+def message_rule(ctx, sym, rule):
+    """_get_message / _get_else_message executed abstractly (explicit text, template, neither; templates that render
+    to text, to blanks, to nothing): explicit text first, else the template formatted with
+    wrap_fields(self.report.format, self.fields) - whatever it renders to -, else the class default. A triggered
+    feedback therefore always has a message (shared with C02: FinalFeedback.merge takes label and category only from
+    feedback whose message is not None)."""
+    from .. import symexec
+    mod = ctx.repo.module(FEEDBACK)
+    specs = [('_get_message', 'message', 'message_template', 'DEFAULT_FEEDBACK_MESSAGE'),
+             ('_get_else_message', 'else_message', 'else_message_template', 'DEFAULT_ELSE_MESSAGE')]
+    for name, attr, tattr, dflt in specs:
+        fn = mod.func('Feedback.' + name)
+        ctx.analysed_function(mod, fn)
+        for text, tmpl in itertools.product((None, 'TEXT', ''), (None, 'T {x}', '{x}', '{blank}', '  {blank}\n')):
+            wraps = []
+            fmt = Obj('formatter')
+            fields = {'x': 1, 'blank': ''}
+            me = symexec.self_obj(mod, 'Feedback', report=Obj('report', format=fmt), fields=fields,
+                                  DEFAULT_FEEDBACK_MESSAGE='DEFAULT', DEFAULT_ELSE_MESSAGE=None,
+                                  DEFAULT_JUSTIFICATION_MESSAGE='DEFAULTJ')
+            me.attrs[attr] = text
+            me.attrs[tattr] = tmpl
+            fd = symexec.new_fd(sym, mod, calls={
+                'wrap_fields': lambda f, fl: (wraps.append((f, fl)) or {'x': 'WRAPPED-X', 'blank': ''})})
+            got, raised = symexec.run(fd, fn, [], bound_self=me, what='Feedback.' + name)
+            if text is not None:
+                want = text
+            elif tmpl is not None:
+                want = tmpl.format(x='WRAPPED-X', blank='')
+            else:
+                want = me.attrs[dflt]
+            ok = raised is None and got == want and (text is not None or tmpl is None or (
+                len(wraps) >= 1 and all(w[0] is fmt and w[1] is fields for w in wraps)))
+            ctx.check(ok, rule, '%s[%s=%r,%s=%r]' % (name, attr, text, tattr, tmpl), mod, fn,
+                      "%s; expected %r (explicit text first, else the template rendered with fields wrapped by the "
+                      "report's formatter - whatever it renders to -, else the default)" % (
+                          'raises %s' % raised.kind if raised is not None else 'returns %r' % (got,), want),
+                      "feedback(%s=%r, %s=%r): a triggered feedback whose message is None is treated by the resolver "
+                      "as if it had not fired" % (attr, text, tattr, tmpl), construct=name)
+
+
 def r5_message(ctx, sym):
     ctx.rule('R5', "decision tables of _get_message/_get_else_message/_get_justification (abstract interpretation): "
                    "explicit text first, else the template formatted with wrap_fields(self.report.format, "
@@ -246,39 +342,7 @@ def r5_message(ctx, sym):
             return sym.const(mod, ast.parse(name, mode='eval').body)
         except (KeyError, SyntaxError):
             raise KeyError(name)
-    specs = [('_get_message', 'message', 'message_template', 'DEFAULT_FEEDBACK_MESSAGE', []),
-             ('_get_else_message', 'else_message', 'else_message_template', 'DEFAULT_ELSE_MESSAGE', [])]
-    for name, attr, tattr, dflt, args in specs:
-        fn = mod.func('Feedback.' + name)
-        ctx.analysed_function(mod, fn)
-        for text, tmpl in itertools.product((None, 'TEXT'), (None, 'T {x}')):
-            fd = FD(resolver=resolver)
-            wraps = []
-            fd.calls['wrap_fields'] = lambda fmt, fields: (wraps.append((fmt, fields)) or {'x': ('wrapped', fields)})
-            fd.methods['format'] = lambda recv, *a, **k: ('formatted', recv, k)
-            fmt = Obj('formatter')
-            fields = {'x': 1}
-            me = Obj('feedback', report=Obj('report', format=fmt), fields=fields,
-                     DEFAULT_FEEDBACK_MESSAGE='DEFAULT', DEFAULT_ELSE_MESSAGE=None,
-                     DEFAULT_JUSTIFICATION_MESSAGE='DEFAULTJ')
-            me.attrs[attr] = text
-            me.attrs[tattr] = tmpl
-            try:
-                got = fd.call_function(fn, args, bound_self=me)
-            except (Raised, Inconclusive) as e:
-                raise AnalysisError("C20 R5: %s outside the decidable fragment: %s" % (name, e))
-            if text is not None:
-                want = text
-            elif tmpl is not None:
-                want = ('formatted', tmpl, {'x': ('wrapped', fields)})
-            else:
-                want = me.attrs[dflt]
-            ok = got == want and (text is not None or tmpl is None or
-                                  (len(wraps) == 1 and wraps[0][0] is fmt and wraps[0][1] is fields))
-            ctx.check(ok, 'R5', '%s[%s=%r,%s=%r]' % (name, attr, text, tattr, tmpl), mod, fn,
-                      "returns %r, expected %r (template fields must be wrapped with the report's formatter)" % (
-                          got, want),
-                      "feedback(%s=%r, %s=%r)" % (attr, text, tattr, tmpl), construct=name)
+    message_rule(ctx, sym, 'R5')
     fn = mod.func('Feedback._get_justification')
     ctx.analysed_function(mod, fn)
     for just, tmpl, met in itertools.product((None, 'J', ('Jmet', 'Junmet')), (None, 'T {x}', ('Tmet {x}', 'Tunmet')),
@@ -512,6 +576,13 @@ def _ancestors_until(node, stop):
         n = getattr(n, '_parent', None)
 
 
+def r8_constructor(ctx, sym):
+    ctx.rule('R8', "Feedback.__init__ executed abstractly per attribute (valence, score, correct, muted, unscored, kind, "
+                   "priority, category, label, message, title, justification): an explicit keyword argument, falsy "
+                   "ones included, becomes the instance's value; None leaves the class default")
+    constructor_rule(ctx, sym, 'R8', list(CONSTRUCTOR_DOMAIN))
+
+
 def run(ctx):
     sym = Symbols(ctx.repo)
     r1_ownership(ctx, sym)
@@ -520,4 +591,5 @@ def run(ctx):
     r5_message(ctx, sym)
     r6_formatter_dispatch(ctx, sym)
     r7_overrides(ctx, sym)
+    r8_constructor(ctx, sym)
     ctx.assume("correctness of each formatter's output text is not decided")
